@@ -20,6 +20,8 @@ CHECKS = {
          "Exploration: EMA/DMA/TMA/DEMA/TEMA/RMA/WSMA/TSI/Vidya/TR/cumulative Integral and ADI at every length (TSI: sampled (short,long) pairs) on the ten stream classes, HeikinAshi's open/close recursion on five candle classes. The radius of the recursive references decays with the signal (e' = (1-a)e + C eps(|x|+|y|)), so a guard that swallows small denominators or a stale state after a flat stretch is outside the allowance; Vidya's no-movement rule is checked exactly on dyadic streams.", "§4 C03"),
  "C04": ("runtime monitoring: exact model oracle (max/min/age of newest extremum/median of the model window, ==) on exhaustive short sequences over tie/signed-zero alphabets and hostile streams for every length; unsafe build with bounds hook; Miri",
          "Exploration with exhaustive sub-spaces: all 4^9 (4^11) sequences over three 4-symbol alphabets ({-0,+0,1,2}, {0,1,2,3}, {-1,-0,+0,1}) for every length 1..=6 - the selection algorithms only compare, so this enumerates every order/tie/zero-sign pattern around short windows - plus plateau/tie/grid/ramp/mixed-sign streams for every length 1..=254. No tolerance. Re-run on the unsafe_performance build (SMM's raw copy under the bounds hook) and a reduced set under Miri.", "§4 C04"),
+ "C07": ("runtime monitoring: long-stream monitors - every step of 1e6..1e7-step streams with regime changes checked against the from-scratch / recurrence references, exact models for selections and detectors, fresh-instance-primed-with-the-last-window differential at checkpoints, position-independent tolerance on exact-grid streams",
+         "Exploration: every arithmetic method at a small and a large length (rotated by seed; thorough: three each) over 1e6 (1e7) / 2e5 (2e6) steps through a repeating regime schedule (volatile, volatile->flat->volatile, scale jumps 1e-6..1e6, dyadic grid, plateaus, constant, signed, ramps, large mean, ties); grid-only runs where every running sum is exact and the tolerance does not grow with the position; selections (Highest/Lowest/Delta/Index/SMM/Past) and crossing/reversal detectors exact at every step of 2e6 (3e7)-step tie-heavy streams, i.e. thousands of crossings of the PeriodType capacity; long-lived vs fresh-primed instances at 1e3, 1e4 and every 1e5 steps; indicators at late positions against their reference values. The stated bound is the table of DESIGN 3.2.", "§4 C07"),
  "C08": ("runtime monitoring: metamorphic oracle (no reference) - constant input => constant output without drift; leading copies of the first element => same later outputs; for every method x every length and every indicator x generated configurations",
          "Exploration: every method at every length 1..=254 fed its construction value 2000 (thorough 20000, and 1e6 at six lengths) times with constants from 5e-324 to 1e300 incl. +-0 and non-dyadic values: selections/signals bit-equal to the first output, arithmetic outputs within a fixed number of roundings of the first output at every step (no growth). Prefix invariance with k in {1,2,n-1,n,n+1,3n} leading copies on hostile streams. All 36 indicators x 10 (60) generated configurations (all MA kinds, sources, boundary periods) on constant candles (flat, zero volume, wide) and with leading copies.", "§4 C08"),
  "C09": ("runtime monitoring: differential oracle - every batch/wrapper API against element-wise next (bit equality), random chunkings incl. empty chunks, clone-and-diverge, peek after every step",
@@ -32,6 +34,8 @@ CHECKS = {
          "Exploration: every method x 12 (254) lengths x snapshot points after 0..=3n steps (every ring phase for small n, windowless ADI/Integral included) x continuation of 2n+50 steps bit-identical, re-serialization equality, text round trip; every indicator x 6 (60) configurations x 7 snapshot points; configuration round trips. Every {buf,index} object embedded in any method/indicator state is mutated 16 ways (index = len, len+1, MAX, >MAX; buffers of MAX, MAX+1, 1000 elements; wrong types; missing fields): malformed => Err, never a panic. Also run on the unsafe_performance build with the bounds hook.", "§4 C13"),
  "C14": ("runtime monitoring: definitional reference detectors vs the real ones, exhaustive short sequences over small alphabets + hostile long streams",
          "Exploration: crossing detectors on all sequences of length 8 (10) over the four difference classes {-1,-0,+0,1} (complete for the two-step rule) plus random touch-heavy pairs of streams; reversal detectors on all sequences of length 9 (11) over 3-symbol alphabets for small (left,right), 400 stratified (thorough: all 32131) pairs x 800-step plateau/tie streams, and 1e5..1e6-step streams that cross the PeriodType capacity thousands of times. Oracle is the definition evaluated from scratch on the history.", "§4 C14"),
+ "C15": ("runtime monitoring: metamorphic oracles over pairs/triples of runs of the same build - exact scaling by -1 and powers of two, affine maps within the allowance, constant reproduction, range containment, superposition, impulse response = documented weight profile",
+         "Exploration: all 15 MA kinds x ALL lengths 1..=254 for the impulse response (compared with the closed-form weight profile: flat, ramp, triangle, SMA*SMA, geometric and its cascades, 2E-EE, 3E-3EE+EEE, Hull and least-squares weights), for constants and for bit-exact scaling by {-1, 2, 1/2, -4, 1024, 2^-60, -2^-58, 2^40}; general affine maps, containment in [min,max] of the horizon for the non-negative-weight kinds and superposition on exact-grid streams for a stratified set of lengths x 3 (8) classes; Conv (random weight vectors up to 253) and VWMA (incl. zero-volume bars). Vidya's adaptive ratio is compared with a conditioning-aware tolerance.", "§4 C15"),
  "C16": ("runtime monitoring: exhaustive enumeration of the finite Action algebra against its laws (513 actions, 513^2 pairs, 513^3 triples, all i8, all 2^32 f32 in thorough)",
          "Exploration, exhaustive on the finite parts: every action, every pair (sub, eq, cmp), every triple (transitivity), every i8, every f32 bit pattern (thorough; 2^24 stratified in quick), every f64 rounding boundary +-8 ulps and specials, 2e5..1e6 random f64. The laws are the property's own (strength arithmetic in 1/255 units), not a copy of the code.", "§4 C16"),
  "C18": ("runtime monitoring: formula oracles on every candle of an exhaustive special-value product and of generated streams; text-form round-trip and rejection fuzzing",
